@@ -36,7 +36,7 @@ def hexs(x):
 def gen_header(rng, m, ki, ts):
     k = ki["kind"]
     if m == "content_type":
-        return rng.choice(["text/plain", "application/octet-stream"])
+        return rng.choice(["text/plain", "application/octet-stream", "application/octet-stream; charset=binary", "application/octet-stream+zstd", "text/plain; charset=utf-8"])
     if k == "string":
         return rng.choice(HSTR)
     if k == "enum":
@@ -75,8 +75,10 @@ def build_output(T, rng, op, full):
         elif loc == "OLMetadata":
             if not present:
                 vals.append((loc, None)); continue
-            kv = {"k1": "v1", "two-words": "a b"} if rng.below(2) else {"only": rng.choice(HSTR)}
-            desc["meta"] = {k: hexs(v) for k, v in kv.items()}; vals.append((loc, ("m", kv)))
+            # a backend may spell a metadata key with capitals: header names are case-insensitive, the client reads the member under the folded name
+            kv = rng.choice([{"k1": "v1", "two-words": "a b"}, {"only": rng.choice(HSTR)}, {"Owner-Id": "42", "k1": "v1"}, {"UPPER": "x"}]) if not full else \
+                [{"k1": "v1", "two-words": "a b"}, {"Owner-Id": "42", "k1": "v1"}][len(op) % 2]
+            desc["meta"] = {k: hexs(v) for k, v in kv.items()}; vals.append((loc, ("m", {k.lower(): v for k, v in kv.items()})))
         elif loc.startswith("OLXmlRoot"):
             Tn = op + "Output"
             nd = loc.endswith("true")
